@@ -44,6 +44,18 @@ func runC03(c *Ctx) []Obligation {
 			Target: CallTo(`^` + MT + `balance\(`), TargetMustExist: true, Why: "a re-linked clone is recomputed before it is rebalanced"},
 		{Prop: P, ID: "remove.relinked-clone-is-balanced", Fn: T0 + "recursiveRemove", Target: RetNotMatch(1, `^`+MT+`balance\(tree, |^node$|^nil$|^node\.(left|right)Node$`), Why: "what is handed back is the untouched node, the surviving sibling, or a rebalanced clone"},
 		{Prop: P, ID: "remove.clone-always-balanced", Fn: T0 + "recursiveRemove", Barrier: []string{`^` + MT + `balance\(`}, Target: TargetAnyReturn(), From: `^` + N + `clone\(`, Why: "every path that clones a node rebalances it before returning"},
+		// separator keys: an inner node's key is the smallest key of its right subtree. When the smallest
+		// key of a right subtree is removed, the new smallest key travels up through every left-descent
+		// until the ancestor whose right subtree it is, which takes it as its own key.
+		{Prop: P, ID: "remove.left-relink-relays-new-key", Fn: T0 + "recursiveRemove", Assume: []Lit{F(`^` + N + `isLeaf\(node\)$`), T(`^lt\(bytes\.Compare\(key, node\.key\), 0\)$`), F(`^eq\(0, builtin\.len\(orphans\)\)$`), T(`^nonnil\(` + MT + `recursiveRemove\(tree, ` + N + `getLeftNode\(node, ` + it + `\), key, orphans\)#[01]\)$`)},
+			Target: RetNotMatch(2, `^`+MT+`recursiveRemove\(tree, `+N+`getLeftNode\(node, `+it+`\), key, orphans\)#2$`), Why: "after a removal in the left subtree the new smallest key reported from below is passed up unchanged"},
+		{Prop: P, ID: "remove.left-child-gone-reports-own-key", Fn: T0 + "recursiveRemove", Assume: []Lit{F(`^` + N + `isLeaf\(node\)$`), T(`^lt\(bytes\.Compare\(key, node\.key\), 0\)$`), F(`^eq\(0, builtin\.len\(orphans\)\)$`), F(`^nonnil\(` + MT + `recursiveRemove\(tree, ` + N + `getLeftNode\(node, ` + it + `\), key, orphans\)#[01]\)$`)},
+			Target: RetNotMatch(2, `^node\.key$`), Why: "when the left child was the removed leaf, the node is replaced by its right child and its key (the smallest key of that right subtree) is reported as the new smallest key"},
+		{Prop: P, ID: "remove.right-relink-adopts-new-key", Fn: T0 + "recursiveRemove", Assume: []Lit{T(`^nonnil\(` + MT + `recursiveRemove\(tree, ` + N + `getRightNode\(node, ` + it + `\), key, orphans\)#2\)$`)},
+			Barrier: []string{`store:\.key = ` + MT + `recursiveRemove\(tree, ` + N + `getRightNode\(node, ` + it + `\), key, orphans\)#2$`}, Target: CallTo(`^` + MT + `balance\(`), From: `getRightNode\(node, `, Why: "a new smallest key reported from the right subtree becomes the re-linked node's own key"},
+		{Prop: P, ID: "remove.right-consumes-new-key", Fn: T0 + "recursiveRemove", Assume: []Lit{F(`^` + N + `isLeaf\(node\)$`), F(`^lt\(bytes\.Compare\(key, node\.key\), 0\)$`)},
+			Target: RetNot(2, "nil"), Why: "a key change coming from the right subtree stops at this node (it does not concern the ancestors)"},
+		{Prop: P, ID: "remove.untouched-reports-no-key", Fn: T0 + "recursiveRemove", Assume: []Lit{T(`^eq\(0, builtin\.len\(orphans\)\)$`)}, Target: RetNot(2, "nil"), Why: "nothing removed, nothing to report"},
 		// rotations
 		{Prop: P, ID: "rotateRight.demoted-first", Fn: T0 + "rotateRight", Barrier: []string{`^` + N + `calcHeightAndSize\(` + N + `clone\(node, `},
 			Target: CallTo(`^` + N + `calcHeightAndSize\(` + N + `clone\(` + N + `getLeftNode\(`), TargetMustExist: true, Why: "the demoted node (now a child) is recomputed before the promoted one, whose height depends on it"},
